@@ -330,15 +330,16 @@ theorem Good.step (h : Good jid U NR c) (op : Op) (hop : OpOk U NR op) : Good ji
   | setSched l d => exact fr (fun _ hi => ⟨hi.cfg, hi.q, hi.e, hi.gg, hi.h, hi.f, hi.ts⟩)
   | tick ms => exact fr (fun _ hi => ⟨hi.cfg, hi.q, hi.e, hi.gg, hi.h, hi.f, hi.ts⟩)
   | setSmCallback => exact fr (fun _ hi => ⟨hi.cfg, hi.q, hi.e, hi.gg, hi.h, hi.f, hi.ts⟩)
+  | setSendOnConnect on => exact fr (fun _ hi => ⟨hi.cfg, hi.q, hi.e, hi.gg, hi.h, hi.f, hi.ts⟩)
   | usend it =>
     show Good jid U NR (Conn.sendStanza c it .user)
     unfold Conn.sendStanza; split
-    · rename_i hg; exact fr (fun _ hi => hi.pushUser it hop hg)
+    · rename_i hg; exact fr (fun _ hi => hi.pushUser it (Or.inl hop) hg)
     · exact h
   | urawstr it =>
     show Good jid U NR (Conn.xmppSendRawString c it)
     unfold Conn.xmppSendRawString; split
-    · rename_i hg; exact fr (fun _ hi => hi.pushUser it hop hg)
+    · rename_i hg; exact fr (fun _ hi => hi.pushUser it (Or.inl hop) hg)
     · exact h
   | uraw it => exact fr (fun _ hi => hi.sendRawUser it hop.1 hop.2)
   | udisc => exact fr (fun _ hi => hi.xmppDisconnect)
